@@ -17,8 +17,8 @@ from sim import child, gen
 ID = 'C14'
 LEVEL = 'fault_enumeration'
 TIERS = {
-    'quick': {'subseeds': 96, 'corruptions': 10, 'pairs': 4, 'wall_budget': 200, 'min_runs': 250},
-    'thorough': {'subseeds': 1500, 'corruptions': 30, 'pairs': 10, 'wall_budget': 3000, 'min_runs': 400},
+    'quick': {'subseeds': 96, 'corruptions': 10, 'pairs': 4, 'xproc_every': 6, 'xproc_cases': 5, 'wall_budget': 200, 'min_runs': 250},
+    'thorough': {'subseeds': 1500, 'corruptions': 30, 'pairs': 10, 'xproc_every': 4, 'xproc_cases': 8, 'wall_budget': 3000, 'min_runs': 400},
 }
 RULE = ('one case = one simulated CLI run of a generated (ISA, program, options) world with one fault plan / '
         'corruption; generation: seeded ISA+program generator, then exhaustive single I/O-fault enumeration over '
@@ -64,7 +64,14 @@ def build_world(case):
         argv += ['--no-binary']
     if case.get('pretty_out'):
         argv += ['--pretty-print-output', case['pretty_out']]
-    return {'files': files, 'argv': argv, 'cwd': PDIR, 'env': {'HOME': '/sim/home', 'LANG': 'C'},
+    modes = {}
+    if case.get('image_readonly') and case.get('pre_image') is not None:
+        modes[image] = 0o444
+    if case.get('crlf'):
+        for pth in list(files):
+            if pth.endswith('.asm'):
+                files[pth] = files[pth].replace('\n', '\r\n')
+    return {'files': files, 'argv': argv, 'cwd': PDIR, 'env': {'HOME': '/sim/home', 'LANG': 'C'}, 'modes': modes,
             'faults': list(case.get('faults', [])), 'step_budget': case.get('step_budget', 3_000_000),
             'stdout_mode': case.get('stdout_mode', 'block'),
             'dirs': [PDIR + '/out']}
@@ -86,7 +93,7 @@ def evaluate(case, r):
     pre = case.get('pre_image')
     post = r['files'].get(img)
     events = r['events']
-    wopens = [e for e in events if e[1] == 'open' and e[2] == img and any(c in (e[3] or '') for c in 'wax+')]
+    wopens = [e for e in events if e[1] == 'opened_w' and e[2] == img]
     fired = r.get('fired', [])
     write_fault = False
     for f in fired:
@@ -146,6 +153,18 @@ def evaluate(case, r):
 
 def check_case(case):
     w = build_world(case)
+    if case.get('xproc'):
+        from sim import xproc
+        rr = xproc.run_real(w, PDIR, hashseed=0, pyopt=case['xproc'].get('pyopt', 0))
+        v = []
+        img = image_path(case)
+        if rr['kind'] == 'exit' and rr['exit'] == 0 and case.get('expect_fail'):
+            v.append(f'FC3-accepted-invalid-{case["expect_fail"]}')
+        elif rr['kind'] == 'exit' and rr['exit'] != 0 and rr['files'].get(img) != case.get('pre_image'):
+            v.append('FC1-image-altered-on-failure')
+        return {'violations': v, 'observed': {'exit': rr['exit'], 'stderr': rr['stderr'][-200:], 'xproc': case['xproc']},
+                'result': {'steps': 0, 'kind': rr['kind'], 'exit': rr['exit'], 'events': [], 'files': rr['files'],
+                           'fired': [], 'gaps': []}}
     r = child.run_world(w)
     v, obs = evaluate(case, r)
     obs['gaps'] = r.get('gaps', [])
@@ -191,6 +210,8 @@ def gen_base(rnd):
         case['output'] = rnd.choice(['out/rom.bin', 'o.bin'])
     if rnd.random() < 0.5:
         case['pre_image'] = OLD_IMAGE if rnd.random() < 0.7 else 'x'
+    if rnd.random() < 0.15:
+        case['crlf'] = True
     if rnd.random() < 0.12:
         case['binary'] = False
     if rnd.random() < 0.2 and info['addr_bits'] >= 12:
@@ -503,6 +524,28 @@ def explore(subseed, cfg):
         res = run(c, 'io:' + faults[0]['kind'])
         if not res['result']['fired'] and res['result']['kind'] == 'exit':
             out['probes']['fault_planned_not_fired'] = out['probes'].get('fault_planned_not_fired', 0) + 1
+    # (1b) states of the file system around the output path (no injected fault: the state itself makes the write fail)
+    for st_ in ('readonly-image', 'missing-output-dir', 'output-is-directory'):
+        c = copy.deepcopy(case)
+        if st_ == 'readonly-image':
+            c['pre_image'] = c.get('pre_image') or OLD_IMAGE
+            c['image_readonly'] = True
+        elif st_ == 'missing-output-dir':
+            c['output'] = 'nodir/sub/rom.bin'
+            c['pre_image'] = None
+        else:
+            c['output'] = 'out'
+            c['pre_image'] = None
+        c['mutation'] = {'kind': 'fs-state', 'state': st_}
+        if c.get('binary', True):
+            c['expect_fail'] = 'FS-' + st_
+            if st_ == 'output-is-directory':
+                c['expect_fail'] = None       # evaluated below: must fail, and nothing may appear
+        res = run(c, 'state:' + st_)
+        out['probes']['fs_state_' + st_] = out['probes'].get('fs_state_' + st_, 0) + 1
+        if st_ == 'output-is-directory' and c.get('binary', True) and not failed(res['result']):
+            out['violations'].append({'case': c, 'class': 'FC2-success-although-output-path-is-a-directory',
+                                      'group': 'state'})
     # (2) zero-length directives at every position
     for c in zero_length_variants(case, rnd):
         c['step_budget'] = max(400_000, max_steps * 6)
@@ -533,6 +576,32 @@ def explore(subseed, cfg):
             c = copy.deepcopy(case)
             c['faults'] = a + b
             run(c, 'io-pair')
+    # (5) cross-process tier: the cases with a known verdict are repeated in real interpreters (real file system, real
+    # hash seeds, `python -O` / `-OO` where asserts are compiled away) - rejected programs must stay rejected, closed
+    if (subseed & 0xFFFFFFFF) % cfg.get('xproc_every', 6) == 0:
+        from sim import xproc
+        sem = semantic_variants(case, info, random.Random(subseed ^ 0x5EED))
+        picks = rnd.sample(sem, min(cfg.get('xproc_cases', 5), len(sem)))
+        for i, c in enumerate(picks):
+            pyopt = [1, 2, 0][i % 3]
+            w = build_world(c)
+            try:
+                rr = xproc.run_real(w, PDIR, hashseed=rnd.randrange(0, 4000), pyopt=pyopt)
+            except Exception as e:
+                out['harness'].append(f'xproc: {type(e).__name__}: {e}')
+                continue
+            out['runs'] += 1
+            out['evaluations'] += 1
+            out['probes']['xproc_runs'] = out['probes'].get('xproc_runs', 0) + 1
+            out['probes'][f'xproc_pyopt_{pyopt}'] = out['probes'].get(f'xproc_pyopt_{pyopt}', 0) + 1
+            img = image_path(c)
+            c2 = copy.deepcopy(c)
+            c2['xproc'] = {'pyopt': pyopt}
+            if rr['kind'] == 'exit' and rr['exit'] == 0 and c.get('expect_fail'):
+                out['violations'].append({'case': c2, 'class': f'FC3-accepted-invalid-{c["expect_fail"]}', 'group': 'xproc'})
+            elif rr['kind'] == 'exit' and rr['exit'] != 0 and rr['files'].get(img) != c.get('pre_image'):
+                out['violations'].append({'case': c2, 'class': 'FC1-image-altered-on-failure', 'group': 'xproc'})
+            out['distinct'].add(H(('xproc', c.get('expect_fail'), pyopt, i)) & 0xFFFFFFFFFFFF)
     if not out['samples']:
         out['samples'].append({'subseed': subseed, 'argv': build_world(case)['argv'], 'main.asm': case['prog'][:12],
                                'n_io_fault_cases': len(singles), 'baseline_events': [list(e) for e in br['events']][:14]})
